@@ -198,6 +198,16 @@ def _correspond(ctx, corr, sess, rng):
         if g < 64 or g % 1024 == 0:
             corr.nontrivial(("groups", g))
     corr.exhaustive["groups_all(2^16 group sets)"] = True
+    # a second look at a sample of the same sets (after the results of the first pass were edited in place by
+    # the harness): the answer is still the unit's membership
+    for g in [0, 1, 0x8000, 0xFFFF, 0x0201] + [rng.randrange(65536) for _ in range(400)]:
+        a = g % 64
+        sc = {"kind": "groups", "class": "again", "dest": "S%d" % a, "bus": [L.unit(s=a, g=g)]}
+        res = run(sess, ctx, corr, "groups_again", sc)
+        want = "ret " + L.lst([i for i in range(16) if g >> i & 1])
+        if res["result"] != want:
+            corr.violate("groups:value-after-edit", sc, want, res["result"],
+                         "QueryGroups must return the membership whatever callers did to earlier results")
     for bus, dest, cls in (([], "S1", "silent"), ([L.unit(s=1, g=5), L.unit(s=1, g=9)], "S1", "collision"),
                            ([L.unit(s=1, g=5), L.unit(s=2, g=9)], "B", "collision"),
                            ([L.unit(s=1, g=0x8001)], "I1", "all"), ([L.unit(s=1, g=0x8001)], "G0", "all"),
